@@ -458,11 +458,19 @@ def _cleanup_document_structure(soup):
 
 
 def _deactivate_deleted_active_elements(soup):
+    wrapped = set()
     for element in soup.find_all(ACTIVE_ELEMENTS):
         if element.find_parent('del'):
+            # A `<template>` inside embedded SVG or MathML is not an HTML
+            # template and nothing in it is inert, so wrap the whole graphic.
+            foreign = element.find_parents(['svg', 'math'])
+            target = foreign[-1] if foreign else element
+            if id(target) in wrapped:
+                continue
+            wrapped.add(id(target))
             wrapper = soup.new_tag('template')
             wrapper['class'] = 'wm-diff-deleted-inert'
-            element.wrap(wrapper)
+            target.wrap(wrapper)
 
     return soup
 
